@@ -19,7 +19,7 @@ type c18SV string
 func (s *c18SV) Set(v string) error { *s = c18SV(v); return nil }
 func (s *c18SV) String() string     { return string(*s) }
 
-var c18OptNames = []string{"a", "b", "A", "ab", "ba", "aa", "x1", "long-name", "f", "force", "1", "o_o", "9", "a-name-longer-than-sixty-four-bytes-0123456789-0123456789-0123456789", "B", "aB", "é", "日本", "-a", "-f", "--force", "a,b", "x,y", "b,"}
+var c18OptNames = []string{"a", "b", "A", "ab", "ba", "aa", "x1", "long-name", "f", "force", "1", "o_o", "9", "a-name-longer-than-sixty-four-bytes-0123456789-0123456789-0123456789", "B", "aB", "é", "日本", "-a", "-f", "--force", "a,b", "x,y", "b,", "h", "help", "H"}
 var c18ArgNames = []string{"X", "Y", "XY", "X1", "X_Y", "x", "Xy", "1X", "_X", "OPTIONS", "OPTIONSX", "X-Y", "X.", "-X", "É", "[X]", "X...", "X|Y", "--", "", "A", "AB", "X=<y>", "(X)", "SRC:DST", "A@B", "WHAT?", "A;B", "A<B", "A>B", "KEY=VALUE", "SRC\n", "\nSRC", "SRC\r", "_", "_SRC", "X\x00", "X[", "X^", "X`", "Xa"}
 
 func init() {
@@ -311,6 +311,9 @@ func runC18(c *core.Ctx) {
 		}
 		pick = opts[oi]
 		pickName = pick.names[r.Intn(len(pick.names))]
+		if pickName == "h" || pickName == "help" {
+			oi = -1 // on the command line these spell a help request: declarations are judged, addressing is not
+		}
 	}
 	argv := []string{"app"}
 	if inSub {
